@@ -1202,8 +1202,8 @@ impl<'a> XGen<'a> {
     /// locals), `frozen`: loop counters that must not be assigned
     fn lines(&mut self, ints: &mut Vec<u32>, funs: &mut Vec<(u32, usize)>, frozen: &[u32], fn_depth: u32, depth: u32, n: usize) -> Vec<XN> {
         let mut out = vec![];
-        // F-C02-6 (known): an `as` rebind in the first line of a block body discards a pending
-        // read of the block header; function bodies (`first_line_as_ok`) start with nothing pending
+        // F-C02-6 (fixed 5baba35): `as` rebinds are generated in every line, also the first line of
+        // a block body where the header's reads are still pending
         let first_as_ok = self.first_line_as_ok;
         self.first_line_as_ok = false;
         for line_no in 0..n {
@@ -1249,16 +1249,26 @@ impl<'a> XGen<'a> {
                     out.push(XN::If(Box::new(c), t, f));
                 }
                 3 => {
-                    // for v in 0..e : v is always a fresh name (`for x in 0..x` with a captured x is
-                    // the shape of F-C02-6, not generated)
-                    let v = self.fresh();
+                    // the loop variable is a fresh name, or (F-C02-7, fixed d2ad1f4) the name of a
+                    // readable variable, preferably the one the iterable reads
                     let hi = if self.rng.chance(1, 2) { self.atom(ints) } else { XN::Lit(self.rng.range(0, 3)) };
+                    let v = match (&hi, self.rng.below(3)) {
+                        (XN::Var(x), 0) if !frozen.contains(x) => *x,
+                        (_, 1) if !assignable.is_empty() => assignable[self.rng.below(assignable.len())],
+                        _ => self.fresh(),
+                    };
                     let hi = match hi {
                         XN::Var(x) => XN::Par(Box::new(XN::Op("-", Box::new(XN::Var(x)), Box::new(XN::Par(Box::new(XN::Op("-", Box::new(XN::Var(x)), Box::new(XN::Lit(2))))))))),
                         other => other,
                     };
                     let mut i1 = ints.clone();
-                    i1.push(v);
+                    if !i1.contains(&v) {
+                        i1.push(v);
+                    }
+                    if !ints.contains(&v) {
+                        // after the loop the variable is assigned only if the loop ran; it is
+                        // readable in the body only
+                    }
                     let mut fr = frozen.to_vec();
                     fr.push(v);
                     let n1 = 1 + self.rng.below(3);
@@ -1337,7 +1347,8 @@ impl<'a> XGen<'a> {
                         let cands: Vec<u32> = assignable.iter().copied().filter(|x| !used.contains(x)).collect();
                         let x = if !cands.is_empty() && self.rng.chance(2, 3) { cands[self.rng.below(cands.len())] } else { self.fresh() };
                         used.push(x);
-                        ts.push(match self.rng.below(if line_no == 0 && !first_as_ok { 2 } else { 3 }) {
+                        let _ = (line_no, first_as_ok);
+                        ts.push(match self.rng.below(3) {
                             0 => XT::Id(x),
                             1 => XT::Short(x),
                             _ => XT::As(x),
